@@ -270,6 +270,57 @@ def check_templates(case, ctx):
             ctx.nontrivial([gt, w, 'tmpl'], sample={'grammar': gt, 'written_out': ft, 'text': w})
 
 
+# ------------------------------------------------------------------ templates carrying modifiers and a priority, written out by hand
+T_ABODY = ['A', 'A B', 'A A', 'B', 'A B?', 'A | B']
+T_TBODY = ['x', 'x B', 'x x', 'x B?', 'A x', 'x | x B']
+T_TEXTS = [''.join(t) for n in range(0, 4) for t in __import__('itertools').product('ab', repeat=n)]
+
+
+def _pr(p): return '' if p is None else '.%d' % p
+
+
+@blame_lark
+def check_template_priority(case, ctx):
+    """'tp{x}.P: body' must mean what 'inst.P: body[x:=ARG] -> tp' means: same LALR conflict resolution (or the same GrammarError), and
+    the same Earley choice whenever the priorities of the competing rules differ"""
+    arg = case['arg']; p1 = case['p1']; p2 = case['p2']; mod = case['mod']
+    tb = case['tbody']; ab = case['abody']
+    head = 'start: %s | alt\nalt%s: %s\n' % ('%s', _pr(p1), ab)
+    terms = 'A: "a"\nB: "b"\n'
+    gt = head % ('tp{%s}' % arg) + '%stp{x}%s: %s\n' % (mod, _pr(p2), tb) + terms
+    flat_body = ' | '.join('%s -> tp' % alt.strip().replace('x', arg) for alt in tb.split('|'))
+    gf = head % 'inst' + '%sinst%s: %s\n' % (mod, _pr(p2), flat_body) + terms
+    for parser, kw in (('lalr', {}), ('earley', {}), ('earley', {'priority': 'invert'})):
+        built = []
+        for text in (gf, gt):
+            try: built.append(Lark(text, parser=parser, **kw))
+            except GrammarError as e: built.append(('GrammarError', str(e)[:200]))
+        if isinstance(built[0], tuple) != isinstance(built[1], tuple):
+            raise Violation('template grammar and written-out grammar do not build alike', engine=[parser, kw], grammar=gt, written_out=gf,
+                            written_out_result=str(built[0])[:300], template_result=str(built[1])[:300])
+        if isinstance(built[0], tuple):
+            ctx.label('tmpl-prio:both-GrammarError'); continue
+        decided = (p1 or 0) != (p2 or 0)
+        for w in T_TEXTS:
+            res = []
+            for p in built:
+                try: res.append(('ok', norm(p.parse(w), set())))
+                except UnexpectedInput as e: res.append(('err', type(e).__name__))
+            if res[0][0] != res[1][0] or (res[0] != res[1] and (parser == 'lalr' or decided)):
+                raise Violation('template with modifiers/priority differs from writing the instance out by hand', engine=[parser, kw], grammar=gt,
+                                written_out=gf, text=w, written_out_result=str(res[0])[:400], template_result=str(res[1])[:400])
+        ctx.label('tmpl-prio:agree')
+        if decided:
+            ctx.nontrivial([gt, parser, str(kw)], sample={'grammar': gt, 'written_out': gf, 'engine': [parser, kw]})
+
+
+@st.composite
+def template_priority_cases(draw):
+    pr = st.sampled_from([None, None, -2, -1, 1, 2, 3])
+    return {'arg': draw(st.sampled_from(['A', 'B'])), 'p1': draw(pr), 'p2': draw(pr), 'mod': draw(st.sampled_from(['', '', '!'])),     # a collapsing ?instance cannot be written with an alias
+            'tbody': draw(st.sampled_from(T_TBODY)), 'abody': draw(st.sampled_from(T_ABODY))}
+
+
 # ------------------------------------------------------------------ terminals built from other terminals, extended/overridden after import
 MOD_T = 'num: NUMBER\nNUMBER: DIGIT+\nDIGIT: "1" | "2"\nWORD: LETTER (LETTER | DIGIT)*\nLETTER: "a" | "b"\nPAIR: LETTER DIGIT\n'
 
@@ -328,7 +379,7 @@ def check_terminals(case, ctx):
 
 
 O = gramgen.Opts(terms='tok', max_rules=5, shaping=True, templates=False, ignore=True, acyclic=True, distinct_anon=True, unique_aliases=True)
-O_T = gramgen.Opts(terms='tok', max_rules=4, shaping=True, templates=True, ignore=True, acyclic=True, distinct_anon=True, unique_aliases=True)
+O_T = gramgen.Opts(terms='tok', max_rules=4, shaping=True, templates=True, lit_tmpl_args=True, ignore=True, acyclic=True, distinct_anon=True, unique_aliases=True)
 
 
 @st.composite
@@ -351,4 +402,5 @@ def phases(tier):
     k = 12 if tier == 'thorough' else 1
     return [Phase('split-into-modules', 'hypothesis', strategy=split_cases(), max_examples=12000 * k),
             Phase('templates-written-out', 'hypothesis', strategy=template_cases(), max_examples=12000 * k, check=check_templates),
+            Phase('templates-with-priority-written-out', 'hypothesis', strategy=template_priority_cases(), max_examples=3000 * k, check=check_template_priority),
             Phase('composite-terminals-extend-override', 'hypothesis', strategy=terminal_cases(), max_examples=3000 * k, check=check_terminals)]
